@@ -418,9 +418,21 @@ func cmdCheck(eng *Engine, o options, start time.Time) int {
 		fmt.Fprintln(os.Stderr, "check needs -prop")
 		return 2
 	}
-	workDir := filepath.Join(o.out, "work", o.prop)
+	// one scratch directory per run: two runs of the same property (quick and thorough, say) must
+	// not overwrite each other's query files
+	workDir := filepath.Join(o.out, "work", fmt.Sprintf("%s.%s.%d", o.prop, o.tier, os.Getpid()))
 	os.RemoveAll(workDir)
 	os.MkdirAll(workDir, 0o755)
+	// stale scratch directories of earlier runs of this property and tier
+	if old, err := filepath.Glob(filepath.Join(o.out, "work", o.prop+"."+o.tier+".*")); err == nil {
+		for _, d := range old {
+			if d != workDir {
+				if fi, err := os.Stat(d); err == nil && time.Since(fi.ModTime()) > 2*time.Hour {
+					os.RemoveAll(d)
+				}
+			}
+		}
+	}
 	replayDir := filepath.Join(o.out, "replays", o.prop)
 	os.MkdirAll(replayDir, 0o755)
 
